@@ -265,7 +265,7 @@ func runFault(fc FaultCase, c *choice.Chooser) faultOutcome {
 	<-srvDone
 
 	// settle: goroutines started by the call must be gone, upload sources closed
-	deadline := time.Now().Add(8 * time.Second)
+	deadline := time.Now().Add(settleHorizon)
 	for {
 		out.leak = clientGoroutines()
 		out.unclosed = out.unclosed[:0]
@@ -291,6 +291,11 @@ func runFault(fc FaultCase, c *choice.Chooser) faultOutcome {
 	out.desc = fmt.Sprintf("pre=%d timeout=%dms %s", out.pre, out.timeoutMS, plan)
 	return out
 }
+
+// settleHorizon: how long after Submit returned a goroutine of the client may still be seen before
+// it is called left behind. A goroutine that is really leaked stays for ever, so waiting costs time
+// only on failing placements; one that is merely finishing is gone within microseconds.
+const settleHorizon = 4 * time.Second
 
 // clientGoroutines returns the stack of a goroutine that is running code of
 // go-openapi/runtime/client, "" if there is none.
@@ -359,7 +364,7 @@ func judgeFault(fc FaultCase, o faultOutcome) (string, string) {
 		return "call-never-returns", fmt.Sprintf("Submit still running after the 30 s horizon (%s)", o.desc)
 	}
 	if o.leak != "" {
-		return "goroutine-left-behind" + sfx, fmt.Sprintf("8 s after Submit returned (err=%v; %s) a goroutine still runs client code: %s", o.err, o.desc, firstLines(o.leak, 8))
+		return "goroutine-left-behind" + sfx, fmt.Sprintf("4 s after Submit returned (err=%v; %s) a goroutine still runs client code: %s", o.err, o.desc, firstLines(o.leak, 8))
 	}
 	if len(o.unclosed) > 0 {
 		return "upload-source-not-closed" + sfx, fmt.Sprintf("sources %v never closed (err=%v; %s)", o.unclosed, o.err, o.desc)
@@ -400,6 +405,9 @@ func faultWorker(args []string) {
 			// level-1 sharding: the default execution plus every single deviation, spread round robin
 			var rec func(prefix []int, depth int)
 			rec = func(prefix []int, depth int) {
+				if len(out.Fails) >= 6 {
+					return // enough to report; every further failing placement costs the settle horizon
+				}
 				c := choice.Replay(prefix)
 				o := runFault(fc, c)
 				mine := depth > 0 || shard == 0
@@ -410,7 +418,7 @@ func faultWorker(args []string) {
 					cl, what := judgeFault(fcc, o)
 					if cl != "" && cl != "call-never-returns" {
 						// confirm before believing: the same placement must fail again
-						for i := 0; i < 2 && cl != ""; i++ {
+						for i := 0; i < 1 && cl != ""; i++ {
 							cl2, what2 := judgeFault(fcc, runFault(fc, choice.Replay(fcc.Choices)))
 							if cl2 != cl {
 								cl, what = "", what2
